@@ -37,6 +37,7 @@ class Pool:
                   "f2": rng.randint(-3, 4, 12).astype(float), "f3": rng.randint(-3, 4, 36).astype(float)}
         self.gfsp = {"f1": 1, "g1": 1, "f2": 2, "f3": 3}
         self.gf = {k: api.GridFunction(s[self.gfsp[k]], coefficients=v) for k, v in self.c.items()}
+        self._dualrep = None   # atoms in dual representation are defined once the mass matrices exist (below)
         self.pts = np.array([[3.0, 0.2, 0.1], [0.1, -4.0, 0.3], [0.5, 0.4, 7.0], [4.0, 4.0, 4.0]]).T
         p = api.operators.potential.laplace
         self.pot = {"p1": p.single_layer(s[1], self.pts), "q1": p.double_layer(s[1], self.pts), "p2": p.single_layer(s[2], self.pts)}
@@ -45,6 +46,12 @@ class Pool:
         self.mass = {}
         for r, d in ((1, 1), (2, 2), (3, 3), (2, 1)):
             self.mass[(r, d)] = np.asarray(b.sparse.identity(s[r], s[r], s[d]).weak_form().to_dense())
+        # grid functions given by projections: d2 onto the dual space 2, e2 onto the dual space 1 (what V22*f2 and X12*f1 return).
+        # Reading .coefficients moves a function to the primal representation, so these atoms are rebuilt on every use.
+        self._dualrep = {"d2": (2, 2, self.mass[(2, 2)].dot(rng.randint(-3, 4, 12).astype(float))), "e2": (2, 1, self.mass[(2, 1)].dot(rng.randint(-3, 4, 12).astype(float)))}
+        for k, (spc, du, pr) in self._dualrep.items():
+            self.c[k] = self.minv(spc, du).dot(pr)
+            self.gfsp[k] = spc
         self.blkdef = {"B": [["V11", "T21"], ["K12", "V22"]], "C": [["I11", None], [None, "V22"]], "R": [["T21", "V11"], ["V22", "K12"]], "D": [["V33"]], "E": [["X12"]]}
         self.blk = {}
         for name, rows in self.blkdef.items():
@@ -67,6 +74,9 @@ class Pool:
             if kind == "bo":
                 return self.bo[t["id"]]
             if kind == "gf":
+                if t["id"] in self._dualrep:
+                    spc, du, pr = self._dualrep[t["id"]]
+                    return self.api.GridFunction(self.sp[spc], projections=pr.copy(), dual_space=self.sp[du])
                 return self.gf[t["id"]]
             if kind == "pot":
                 return self.pot[t["id"]]
